@@ -573,6 +573,17 @@ package cl
 //@   on-store argPos#1 consumes-only-without-parameter: colon || at || n < 0
 
 // ---------------------------------------------------------------------------
+// C16: sxhash. equal compares strings without regard to case, so two equal
+// objects can differ in the case of their letters: every byte must contribute
+// to the hash what its other-case twin contributes. The loop adds, per byte,
+// the byte with bit 0x20 cleared (the lemma states what that means for letters).
+//@ define clear20(b) = b - 32 * ((b / 32) % 2)
+//@ func cl.(*Sxhash).Call
+//@   property C16
+//@   loop rangeindex: step case-blind-contribution: h == wrapu64(prev(h) + clear20(b))
+//@   lemma-each c 97 122 letters-contribute-like-their-capitals: clear20(c) == c - 32 && clear20(c - 32) == c - 32
+
+// ---------------------------------------------------------------------------
 // C16: a hash table is a finite map.
 //@ func cl.(*Remhash).Call
 //@   property C16
